@@ -61,19 +61,25 @@ pub struct Sweep {
     /// the node runs the chain-aware validator (a wrapper that delegates these requests)
     #[serde(default)]
     pub onchain: bool,
+    /// the policy demotes the tag families that no sweep / HTLC-transaction rule reports under
+    #[serde(default)]
+    pub filtered: bool,
 }
 
 struct Ctx {
     ch: Chan,
 }
 
-fn make_ctx(anchors: bool, onchain: bool) -> Ctx {
+fn make_ctx(anchors: bool, onchain: bool, filtered: bool) -> Ctx {
     let mut cfg = WorldCfg::default();
     cfg.onchain = onchain;
     cfg.oracle_pubkeys = vec![oracle_pub(0)];
     cfg.policy = Some(policy_with(|p| {
         p.min_feerate_per_kw = 500;
         p.max_feerate_per_kw = 20_000;
+        if filtered {
+            p.filter = unrelated_filter(&["policy-sweep", "policy-htlc", "policy-onchain"]);
+        }
     }));
     cfg.allowlist = vec![foreign_address(1, cfg.network)];
     let w = World::new(cfg.clone());
@@ -277,10 +283,11 @@ fn sweeps(tier: Tier) -> Vec<Sweep> {
                                 if tier == Tier::Quick && version != 2 && o != OutP::Wallet {
                                     continue;
                                 }
-                                v.push(Sweep { anchors, kind, version, locktime, seq, other: *other, outs: o, onchain: false });
+                                v.push(Sweep { anchors, kind, version, locktime, seq, other: *other, outs: o, onchain: false, filtered: false });
                                 if other.is_none() {
                                     // single-input sweeps once more under the chain-aware validator
-                                    v.push(Sweep { anchors, kind, version, locktime, seq, other: *other, outs: o, onchain: true });
+                                    v.push(Sweep { anchors, kind, version, locktime, seq, other: *other, outs: o, onchain: true, filtered: false });
+                                    v.push(Sweep { anchors, kind, version, locktime, seq, other: *other, outs: o, onchain: false, filtered: true });
                                 }
                             }
                         }
@@ -331,6 +338,9 @@ pub struct HCase {
     /// the node runs the chain-aware validator
     #[serde(default)]
     pub onchain: bool,
+    /// the policy demotes the tag families that no sweep / HTLC-transaction rule reports under
+    #[serde(default)]
+    pub filtered: bool,
 }
 
 fn hmuts() -> Vec<HMut> {
@@ -536,7 +546,10 @@ pub fn main(tier: Tier) -> i32 {
             for offered in [false, true] {
                 for s in dev_sets(ms.len(), tier.pick(1, 2)) {
                     for onchain in [false, true] {
-                        hc.push(HCase { anchors, counterparty, offered, muts: s.iter().map(|i| ms[*i].clone()).collect(), onchain });
+                        hc.push(HCase { anchors, counterparty, offered, muts: s.iter().map(|i| ms[*i].clone()).collect(), onchain, filtered: false });
+                        if !onchain {
+                            hc.push(HCase { anchors, counterparty, offered, muts: s.iter().map(|i| ms[*i].clone()).collect(), onchain, filtered: true });
+                        }
                     }
                 }
             }
@@ -553,18 +566,18 @@ pub fn main(tier: Tier) -> i32 {
     jobs.extend(hc.iter().cloned().map(Job::H));
     let chunks: Vec<Vec<Job>> = jobs.chunks((jobs.len() + threads - 1) / threads).map(|c| c.to_vec()).collect();
     let results = par_map(&chunks, threads, |chunk| {
-        let ctxs = [make_ctx(false, false), make_ctx(true, false), make_ctx(false, true), make_ctx(true, true)];
+        let ctxs = [make_ctx(false, false, false), make_ctx(true, false, false), make_ctx(false, true, false), make_ctx(true, true, false), make_ctx(false, false, true), make_ctx(true, false, true)];
         let mut out = vec![];
         for j in chunk {
             match j {
                 Job::S(s) => {
-                    let (class, vio) = run_sweep(&ctxs[s.anchors as usize + 2 * s.onchain as usize], s);
-                    out.push((format!("sweep|{:?}|{}{}|v{}|{}", s.kind, s.anchors, if s.onchain { "|onchain" } else { "" }, s.version, class), class.starts_with("accepted"), vio, json!({"engine": "c09", "sweep": s})));
+                    let (class, vio) = run_sweep(&ctxs[s.anchors as usize + 2 * s.onchain as usize + 4 * s.filtered as usize], s);
+                    out.push((format!("sweep|{:?}|{}{}|v{}|{}", s.kind, s.anchors, if s.onchain { "|onchain" } else if s.filtered { "|filtered" } else { "" }, s.version, class), class.starts_with("accepted"), vio, json!({"engine": "c09", "sweep": s})));
                 }
                 Job::H(h) => {
-                    let (class, vio) = run_htlc(&ctxs[h.anchors as usize + 2 * h.onchain as usize], h);
+                    let (class, vio) = run_htlc(&ctxs[h.anchors as usize + 2 * h.onchain as usize + 4 * h.filtered as usize], h);
                     let kinds: Vec<String> = h.muts.iter().map(|m| format!("{:?}", m).split('(').next().unwrap().to_string()).collect();
-                    out.push((format!("htlc|{}{}|{}|{}|{}|{}", h.anchors, if h.onchain { "|onchain" } else { "" }, h.counterparty, h.offered, kinds.join("+"), class), class.starts_with("accepted"), vio, json!({"engine": "c09", "htlc": h})));
+                    out.push((format!("htlc|{}{}|{}|{}|{}|{}", h.anchors, if h.onchain { "|onchain" } else if h.filtered { "|filtered" } else { "" }, h.counterparty, h.offered, kinds.join("+"), class), class.starts_with("accepted"), vio, json!({"engine": "c09", "htlc": h})));
                 }
             }
         }
@@ -597,8 +610,8 @@ pub fn main(tier: Tier) -> i32 {
             }
         }
     }
-    if base_htlc_acc < 16 {
-        run.vacuous(&format!("only {} of 16 unmutated HTLC transactions were signed", base_htlc_acc));
+    if base_htlc_acc < 24 {
+        run.vacuous(&format!("only {} of 24 unmutated HTLC transactions were signed", base_htlc_acc));
     }
     if acc_sweeps == 0 {
         run.vacuous("no sweep was signed");
@@ -629,10 +642,10 @@ pub fn replay(v: &Value) {
     let rp = &v["replay"];
     for round in 0..2 {
         if let Ok(s) = serde_json::from_value::<Sweep>(rp["sweep"].clone()) {
-            let ctx = make_ctx(s.anchors, s.onchain);
+            let ctx = make_ctx(s.anchors, s.onchain, s.filtered);
             println!("round {}: {:?}", round, run_sweep(&ctx, &s));
         } else if let Ok(h) = serde_json::from_value::<HCase>(rp["htlc"].clone()) {
-            let ctx = make_ctx(h.anchors, h.onchain);
+            let ctx = make_ctx(h.anchors, h.onchain, h.filtered);
             println!("round {}: {:?}", round, run_htlc(&ctx, &h));
         } else {
             machinery_failure("unrecognised C09 replay");
